@@ -68,6 +68,6 @@ int main(int argc, char** argv) {
   for (const auto& o : r.obslist)
     std::cout << "OBS " << bytes2hex(o.xml_tag) << ' ' << bytes2hex(o.from) << ' ' << bytes2hex(o.to) << ' ' << bytes2hex(o.left) << ' ' << bytes2hex(o.right) << ' '
               << dhex(o.obs) << ' ' << dhex(o.adj) << ' ' << dhex(o.stdev) << ' ' << dhex(o.qrr) << ' ' << dhex(o.f) << ' ' << dhex(o.std_residual) << ' '
-              << bytes2hex(o.err_obs) << ' ' << bytes2hex(o.err_adj) << "\n";
+              << bytes2hex(o.err_obs) << ' ' << bytes2hex(o.err_adj) << ' ' << dhex(o.residual()) << "\n";
   return 0;
 }
